@@ -97,14 +97,15 @@ prop("C03",
      assumptions=["generic packets (SUBACK, PINGRESP ...) are not modelled", "one popPackets round is atomic w.r.t. acknowledgement processing"],
 )
 prop("C02", harness="C02",
-     coq=_WRITER_COQ + ["props/C02.v", "props/C03.v"],
+     coq=_WRITER_COQ + ["proofs/NoLoss.v", "props/C02.v", "props/C03.v"],
      n={"quick": 500, "thorough": 10000, "search": 2000},
      shrink_fields=["ops"], shrink_min=1,
      rule=_WRITER_RULE + " For C02 every history contains close/reconnect operations.",
      level_text="Theorems (coq/props/C02.v, with the C03 invariant): for every Receive Maximum >= 1 a connected client that acknowledged everything is sent the next pending QoS 1/2 message by the "
                 "next writer round (no stall); everything transmitted and unacknowledged at connection end is queued with its identifier and DUP=1 for unconditional retransmission at reconnect "
-                "and is served first; queued unexpired messages survive in persistence. The whole-history conservation statement C02_no_loss_full is stated but NOT yet proved (partial): "
-                "it is checked per generated history by the packet-by-packet agreement of model and client log. Network loss timing is outside the model.",
+                "and is served first; queued unexpired messages survive in persistence. C02_no_loss (proved, over EVERY guarded history of publish / writer round / acknowledgement / disconnect / reconnect events, every Receive Maximum): "
+                "a QoS 1/2 message without expiry handed to the session is afterwards still pending (queued, awaiting retransmission, in flight, or persisted) unless the client has acknowledged it. "
+                "Outside the guard (reconnect announcing a Receive Maximum below the unacknowledged count): known finding C03-reconnect-lower-rm. Messages exceeding the client's Maximum Packet Size are C12's.",
      level_note="Trusted: as C03; plus clients.sessionPersistPublish modelled as the offline branch of send.",
      trusted_base=["vlplugin persistence/mem", "vlapi codec"],
      assumptions=["the session stays durable (no expiry elapses) during a history", "Maximum Packet Size filtering is not modelled"],
